@@ -23,7 +23,10 @@ func (r *Run) callSeqOf(fd *FuncDecl) []string {
 // the per-function inventories so that extracting a helper does not change them).
 func (r *Run) unexportedHelper(info *types.Info, c *ast.CallExpr) *FuncDecl {
 	f := typeutil.StaticCallee(info, c)
-	if f == nil || !InModule(f) || f.Exported() {
+	if f == nil || !InModule(f) {
+		return nil
+	}
+	if f.Exported() && !r.G.isNewFunc(f.Origin()) {
 		return nil
 	}
 	return r.Prog.Funcs[f.Origin()]
